@@ -233,6 +233,27 @@ class ProductDomain(Domain):
         n_out = len(b_points)
         return n_out, b_points, params
 
+    def _sample_n_uniform_b_points(self, n, params=Points.empty(), device="cpu"):
+        # exactly n points of domain_b for (at most) one parameter row
+        n_points, b_points, new_params = self._sample_uniform_b_points(
+            n, params=params, device=device
+        )
+        n_sampled = n
+        while n_points != n:
+            if n_points < n:
+                n_guess = int((n / n_points - 1) * n_sampled) + 1
+                n_out, add_b_points, add_params = self._sample_uniform_b_points(
+                    n_guess, params=params, device=device
+                )
+                b_points = b_points | add_b_points
+                new_params = new_params | add_params
+                n_points += n_out
+            else:
+                b_points = b_points[:n,]
+                new_params = new_params[:n,]
+                n_points = n
+        return b_points, new_params
+
     def sample_random_uniform(
         self, n=None, d=None, params=Points.empty(), device="cpu"
     ):
@@ -243,23 +264,15 @@ class ProductDomain(Domain):
                     n=n_, params=new_params, device=device
                 )
             else:  # use ratio of uniforms to get uniform values in product domain
-                n_points, b_points, new_params = self._sample_uniform_b_points(
-                    n, params=params, device=device
-                )
-                n_sampled = n
-                while n_points != n:
-                    if n_points < n:
-                        n_guess = int((n / n_points - 1) * n_sampled) + 1
-                        n_out, add_b_points, add_params = self._sample_uniform_b_points(
-                            n_guess, params=params, device=device
-                        )
-                        b_points = b_points | add_b_points
-                        new_params = new_params | add_params
-                        n_points += n_out
-                    else:
-                        b_points = b_points[:n,]
-                        new_params = new_params[:n,]
-                        n_points = n
+                # one parameter row at a time, so that every row gets exactly n points
+                b_points, new_params = Points.empty(), Points.empty()
+                for i in range(self.len_of_params(params)):
+                    ith_params = params[i,] if len(params) > 0 else Points.empty()
+                    ith_b_points, ith_new_params = self._sample_n_uniform_b_points(
+                        n, ith_params, device
+                    )
+                    b_points = b_points | ith_b_points
+                    new_params = new_params | ith_new_params
             a_points = self.domain_a.sample_random_uniform(
                 n=1, params=new_params.join(b_points), device=device
             )
